@@ -154,7 +154,7 @@ def stepModel (s : DS) (ts : List String) (_ : String) : DS × Option String :=
     | _, _ => (s, some "bad-op")
   | ["results"] =>
     match s.fin with
-    | some th => (s, some (" ".intercalate ((List.range th.length).zip th |>.map fun (i, t) =>
+    | some th => (s, some (if th.isEmpty then "-" else " ".intercalate ((List.range th.length).zip th |>.map fun (i, t) =>
         s!"{i}:{showList (t.res.map tf)}")))
     | none => (s, some "bad-op")
   | ["log"] =>
@@ -273,6 +273,8 @@ structure OD where
 def verdict (x : Option String) : String := match x with | some w => "bad " ++ w | none => "ok"
 
 def stepOracle (s : OD) (ts : List String) (line : String) : OD × Option String :=
+  -- an op the implementation's interpreter rejected: the case is ill-formed (only arises while shrinking)
+  if resPart line = some "bad-op" then (s, some "bad-op") else
   match ts with
   | "cb.new" :: rest =>
     match parseCfg? rest with
@@ -294,7 +296,7 @@ def stepOracle (s : OD) (ts : List String) (line : String) : OD × Option String
   | ["results"] =>
     match s.os, resPart line with
     | some o, some r =>
-      let want := " ".intercalate ((List.range s.lastN).map fun i =>
+      let want := if s.lastN = 0 then "-" else " ".intercalate ((List.range s.lastN).map fun i =>
         s!"{i}:{showList ((o.ress.filter fun p => p.1 = i).map fun p => tf p.2)}")
       if r ≠ want then (s, some "bad results differ from the trace") else (s, some (verdict o.prBad))
     | _, _ => (s, some "bad-op")
@@ -320,9 +322,26 @@ def stepOracle (s : OD) (ts : List String) (line : String) : OD × Option String
     | none => (s, some "bad-op")
   | _ => (s, some "bad-op")
 
+/-- `ghost` mode: the verdicts the oracle should give, computed from the model's monitor fields (the ones the
+    theorems of `Sentinel.Props.C12` speak about) instead of from the trace: used by the check to validate the
+    oracle's attribution of early admissions / reordered notifications to the known findings -/
+def stepGhost (s : DS) (ts : List String) (line : String) : DS × Option String :=
+  let (s', r) := stepModel s ts line
+  match ts, r with
+  | _, some "bad-op" => (s', r)
+  | "sched" :: _, some _ => (s', some "ok")
+  | ["results"], some _ => (s', some "ok")
+  | ["log"], some _ => (s', some (if s'.sh.log ≠ s'.sh.hist then "known:listener-order" else "ok"))
+  | ["final"], some _ =>
+      (s', some (if s'.sh.earlyOut then "bad earlyOut"
+                 else if s'.sh.earlyNoDl then "known:open-without-deadline"
+                 else if s'.sh.earlyStale then "known:stale-retry-check" else "ok"))
+  | _, _ => (s', r)
+
 def run (mode : String) : IO Unit :=
   match mode with
   | "model" => loop ({} : DS) stepModel
+  | "ghost" => loop ({} : DS) stepGhost
   | "oracle" => loop ({} : OD) stepOracle
   | _ => IO.eprintln s!"C12: unknown mode {mode}"
 
